@@ -702,7 +702,7 @@ func runCase(r *run.R, spec *caseSpec, watchdog time.Duration) caseResult {
 			}
 		}
 		if len(stuck) == 0 {
-			stuck = []string{"no-bus-call-in-flight(reading-subscriber-never-got-the-closing-marker)"}
+			stuck = []string{"no-bus-call-in-flight"}
 		}
 		return caseResult{status: "stall", w: w, dump: dump, stuck: strings.Join(stuck, "+")}
 	}
@@ -739,13 +739,14 @@ func TestC15(t *testing.T) {
 	defer runtime.GOMAXPROCS(procs0)
 	race := os.Getenv("VERIF_RACE") == "1"
 
-	r.Rule("one case = one generated concurrent script on a fresh real bus (typed/multi-type/wildcard subscriptions, buffers {0,1,2,16}, 1-4 emitters per type x 1-4 goroutines, stateful and plain types, Subscribe/Close/Emitter.Close at generated points during the emits), all logs checked offline against the emission log; a case is non-trivial if at least one Subscribe or Subscription.Close call really overlapped an Emit of a subscribed type AND at least one no-loss obligation was decided; distinct = distinct generated scripts")
+	r.Rule("one case = one generated concurrent script on a fresh real bus (typed/multi-type/wildcard subscriptions, buffers {0,1,2,16}, 1-4 emitters per type x 1-4 goroutines, stateful and plain types, Subscribe/Close/Emitter.Close at generated points during the emits), all logs checked offline against the emission log; a case is non-trivial if at least one Subscribe or Subscription.Close call really overlapped an Emit of a subscribed type AND at least one no-loss obligation was decided; distinct = distinct generated scripts; plus slow/* (same oracle, first reader pauses >1 s) and f9/* (dedicated reproduction of known finding F9)")
 	r.Assume(
 		"schedules excluded on purpose (known finding F9): a multi-type Subscribe never overlaps another call that takes the bus-wide lock (Subscribe, Emitter, Emitter.Close, Subscription.Close) — the harness serialises exactly these with an RW lock, emits stay fully concurrent — and a multi-type subscription's buffer is >= the number of stateful types in it; on the unchanged tree the excluded schedules deadlock (multi-type registration is not atomic w.r.t. the channel being read) and are reproduced by the dedicated cases f9/*",
 		"the retained event of a stateful type is REQUIRED only while some emitter created with eventbus.Stateful stays open from before the earlier Emit until after Subscribe returned (Stateful is an emitter option; with no emitter and no subscriber left the bus forgets the type); otherwise a replay is allowed but optional; wildcard subscribers are never required to get a replay",
 		"order between overlapping Emit calls (same emitter, different goroutines) is left free; only Emit-returned-before-Emit-began pairs are ordered",
 		"no-loss is decided where Close cannot have drained: for reads made before Close was called (per-emitter gaps) and completely for subscribers that closed after catching up",
-		"stalls: real-time watchdog (>=1000x the normal duration of a case); a stalled case is re-run alone with a doubled watchdog and only a repeated stall is a violation",
+		"stalls: real-time watchdog (20 s, >=1000x the normal duration of a case); a stalled script is re-run alone with a doubled watchdog (up to 25 solo runs, a completed one takes milliseconds) and only a repeated stall is a violation, a single stall is inconclusive",
+		"slow/* cases use a real 1.1-1.3 s reader pause only to push emits past the bus' one-second slow-consumer warning; the verdict still comes from the logical-stamp oracle",
 		"each reader is the only consumer of its subscription channel")
 
 	oracleSelfCheck(r)
